@@ -209,6 +209,63 @@ static void conc_case(int warm, unsigned dimsel, int T, int rounds, unsigned rep
   case_end(overlaps > 0);
 }
 
+// every thread builds, uses and destroys its OWN modules and tables at the same time as the others (constructors
+// must not share hidden scratch either); results are compared with the same work done alone afterwards
+typedef struct {
+  uint64_t N, seed;
+  uint64_t hashes[24];
+  pthread_barrier_t* bar;
+} ctor_t;
+static void ctor_work(ctor_t* c) {
+  env_t* e = env_create(c->N, 1);
+  static const char* const USE[] = {"q120_ntt_bb_avx2", "q120_intt_bb_avx2", "reim_fft", "reim_ifft", "cplx_fft", "cplx_ifft", "vec_znx_dft", "vec_znx_idft", "vec_znx_dft@ntt120", "vec_znx_idft@ntt120", "znx_small_single_product", "vmp_apply_dft",
+                                    "q120_vec_mat1col_product_baa_ref", "q120_vec_mat1col_product_bbb_avx2", "q120_vec_mat1col_product_bbc_ref", "reim_to_znx64", "reim_to_tnx", "cplx_to_tnx32", "reim4_from_cplx", "svp_apply_dft"};
+  for (size_t i = 0; i < ARRAY_LEN(USE); i++) {
+    opres_t r;
+    op_exec(&OPS[op_find(USE[i])], e, c->seed + i, (int)(i & 3), (unsigned)i, 0, &r);
+    c->hashes[i] = r.skipped ? 0 : r.out_hash;
+  }
+  env_destroy(e);
+}
+static void* ctor_worker(void* arg) {
+  ctor_t* c = arg;
+  pthread_barrier_wait(c->bar);
+  ctor_work(c);
+  return 0;
+}
+static void construction_case(int T, unsigned rep) {
+  char key[96];
+  snprintf(key, sizeof key, "concurrent:construction+use+destruction|T=%d", T);
+  if (!case_begin(key, "threads=%d rep=%u", T, rep)) return;
+  rng_t* r = crng();
+  tsan_reports_in_case = 0;
+  ctor_t th[MAXT], seq[MAXT];
+  pthread_t tid[MAXT];
+  pthread_barrier_t bar;
+  pthread_barrier_init(&bar, 0, (unsigned)T);
+  static const uint64_t CN[] = {4, 16, 64, 256, 2048, 4096, 16384, 1024};
+  for (int t = 0; t < T; t++) {
+    memset(&th[t], 0, sizeof th[t]);
+    th[t].N = CN[rng_u64(r) % ARRAY_LEN(CN)];
+    th[t].seed = rng_u64(r);
+    th[t].bar = &bar;
+    seq[t] = th[t];
+  }
+  for (int t = 0; t < T; t++) pthread_create(&tid[t], 0, ctor_worker, &th[t]);
+  for (int t = 0; t < T; t++) pthread_join(tid[t], 0);
+  pthread_barrier_destroy(&bar);
+  uint64_t nbad = 0;
+  for (int t = 0; t < T; t++) {
+    ctor_work(&seq[t]);
+    for (int i = 0; i < 24; i++)
+      if (seq[t].hashes[i] != th[t].hashes[i] && nbad++ < 2) viol("differential", "objects built while %d threads were constructing theirs give different results than objects built alone (N=%" PRIu64 ", use %d)", T, th[t].N, i);
+  }
+  if (tsan_reports_in_case) viol("tsan", "ThreadSanitizer produced %d report(s) during concurrent construction", tsan_reports_in_case);
+  cnt("concurrent_constructions", (uint64_t)T);
+  sample("%d threads each built modules + all table kinds, used 20 entry points, destroyed them; equal to the sequential run", T);
+  case_end(1);
+}
+
 void run_C12(void) {
   const int th = G.thorough;
   static const int TS[] = {8, 16, 4, 2};
@@ -218,4 +275,5 @@ void run_C12(void) {
     for (size_t ti = 0; ti < ARRAY_LEN(TS); ti++) conc_case(0, rep + (unsigned)ti, TS[ti], 1 + (int)(rep & 1), rep);
   for (unsigned rep = 0; rep < n; rep++)
     for (size_t ti = 0; ti < ARRAY_LEN(TS); ti++) conc_case(1, rep + (unsigned)ti, TS[ti], 3, rep);
+  for (unsigned rep = 0; rep < (th ? 60u : 6u); rep++) construction_case(rep & 1 ? 16 : 4, rep);
 }
